@@ -99,7 +99,11 @@ inline bool admits_impl(const xdb::Form& G, const XInst& x, bool with_implicit) 
       if (!d.memSegment.empty()) {
         bool is_si = d.memRegOnly.find("si") != std::string::npos, is_bx = d.memRegOnly.find("bx") != std::string::npos;
         int id = is_si ? 6 : is_bx ? 3 : 7;
-        if (o.mem.base.id != id || o.mem.index.rc != RC::None || o.mem.disp != 0) return false;
+        // "m512(es:r32|r64)" (enqcmd, movdir64b): the destination address is in ANY general register (ModRM.reg), with the address size
+        // selecting its width (SDM: ENQCMD/MOVDIR64B r32/r64, m512 - a 67h prefix gives the narrower register in either mode)
+        bool any_base = d.memRegOnly.size() >= 2 && d.memRegOnly[0] == 'r' && isdigit((unsigned char)d.memRegOnly[1]);
+        if ((!any_base && o.mem.base.id != id) || o.mem.index.rc != RC::None || o.mem.disp != 0) return false;
+        if (any_base && !(o.mem.base.rc == RC::Gp16 || o.mem.base.rc == RC::Gp32 || o.mem.base.rc == RC::Gp64)) return false;
       }
     } else {
       if (!d.is_imm() || d.is_reg() || d.is_mem()) return false;
